@@ -510,6 +510,24 @@ def rule_E(run, prog):
     entries in the unit system it receives them in."""
     from .. import unitflow
     rid = "C09-E"
+    # the three representations of a bath are built from the same parameter dictionaries: they have to agree on which
+    # entries carry energy units (a key missing from one table is taken as given under energy_units, while the other
+    # two classes convert it)
+    tabs = {}
+    for cls_q in (CF + "CorrelationFunction", CF + "FTCorrelationFunction", SD + "SpectralDensity"):
+        c_ = prog.cls(cls_q)
+        tabs[c_.name] = unitflow.energy_keys(prog, c_)
+        if not tabs[c_.name]:
+            raise AnalysisError("%s.energy_params not found" % c_.name)
+    ref = tabs["CorrelationFunction"]
+    for nme, keys in sorted(tabs.items()):
+        run.obligation(rid, nme, keys == ref, key="energy-keys-agree",
+                       message="%s.energy_params lacks %s / has in addition %s compared with CorrelationFunction: created inside "
+                               "energy_units from the same parameters, %s keeps these entries unconverted and its values are off by "
+                               "orders of magnitude" % (nme, sorted(ref - keys), sorted(keys - ref), nme),
+                       loc="%s:%d" % (prog.cls((SD if nme == "SpectralDensity" else CF) + nme).module.relpath,
+                                      prog.cls((SD if nme == "SpectralDensity" else CF) + nme).node.lineno),
+                       sample={"class": nme, "keys": sorted(keys)})
     for cls_q, cname in ((CF + "CorrelationFunction", "CorrelationFunction"), (SD + "SpectralDensity", "SpectralDensity")):
         cls = prog.cls(cls_q)
         ekeys = unitflow.energy_keys(prog, cls)
